@@ -1977,7 +1977,7 @@ Proof.
         unfold has in Hhas. destruct (lookup n p) as [b|] eqn:Eb; [|discriminate].
         destruct (is_xml_ct E ct) eqn:Ex; [|discriminate]. destruct (reser E b) eqn:Er; [discriminate|].
         inversion Hf; subst. right. split; [auto|]. right; right. exists n, ct, b. rewrite Hctin. auto.
-      - inversion Hf; subst. apply ct_lookup_err in Ect as ->. left. split; [auto|]. right; left.
+      - inversion Hf; subst. pose proof (ct_lookup_err _ _ _ Ect); subst. left. split; [auto|]. right; left.
         exists n. rewrite Hctin. auto. }
   assert (Hnames : forall pr, In pr protos -> In (fst (fst pr)) (part_names E p)).
   { intros pr Hpr. destruct (mapM_ok_in _ _ _ E1 pr Hpr) as (x & Hx & Hf). unfold load_part in Hf.
@@ -1986,11 +1986,12 @@ Proof.
   match goal with |- context [mapM ?f protos] => destruct (mapM f protos) as [parts|e2] eqn:E2 end; cbn [bind].
   2:{ intros H; inversion H; subst. apply mapM_err in E2 as ([[n ct] b] & Hpr & Hf).
       unfold load_rels in Hf.
-      destruct (valid_rels n _ (rels_or_nil E p n)) as [l|e3] eqn:Ev; simpl in Hf; [discriminate|].
+      destruct (valid_rels n (fun n0 => mem_str n0 (part_names E p)) (rels_or_nil E p n)) as [l|e3] eqn:Ev;
+        simpl in Hf; [discriminate|].
       inversion Hf; subst. apply valid_rels_err in Ev as (-> & r & Hr & Hm & Hp).
-      left. split; [auto|]. right; right. exists n, r. repeat split; [auto|]. right. apply (Hnames _ Hpr). }
+      left. split; [auto|]. right; right. exists n, r. repeat split; auto. right. apply (Hnames _ Hpr). }
   unfold load_rels.
-  destruct (valid_rels root _ (rels_or_nil E p root)) as [l|e3] eqn:Ev; simpl; [discriminate|].
+  destruct (valid_rels root (fun n0 => mem_str n0 (part_names E p)) (rels_or_nil E p root)) as [l|e3] eqn:Ev; simpl; [discriminate|].
   intros H; inversion H; subst. apply valid_rels_err in Ev as (-> & r & Hr & Hm & Hp).
   left. split; [auto|]. right; right. exists root, r. repeat split; [auto|]. left; auto.
 Qed.
